@@ -622,10 +622,25 @@ def r4(ctx):
             # -- substring tests against coding names
             for n in walk_own(f.node):
                 c = compare(n) if isinstance(n, ast.Compare) else None
-                if c and c[1] in (ast.In, ast.NotIn) and isinstance(const(c[0], NO), str) and len(const(c[0])) >= 2 and const(c[0]).isalpha():
+                if c and c[1] in (ast.In, ast.NotIn) and isinstance(const(c[0], NO), str) and len(const(c[0])) >= 2 and const(c[0]).replace("-", "").isalpha():
                     n_sites += 1
+                    if _is_collection(f, c[2]):
+                        ctx.ok("C01.R4", site(f, n), "membership test in a list of whole members")
+                        continue
                     ctx.bad("C01.R4", key(f, norm(n)), site(f, n), "substring test `%s` on a protocol element (must compare whole list members)" % norm(n))
     ctx.floor("C01.R4", "lenient-primitive call sites", n_sites, 12)
+
+
+def _is_collection(f, e):
+    """is the expression a list/tuple/set of whole members (so `x in e` is membership, not substring)?"""
+    if isinstance(e, (ast.List, ast.Tuple, ast.Set, ast.ListComp, ast.SetComp)):
+        return True
+    if isinstance(e, ast.Call) and isinstance(e.func, ast.Attribute) and e.func.attr in ("split", "rsplit", "keys", "values"):
+        return True
+    if isinstance(e, ast.Name):
+        st = [s for s in stores_to_name(f, e.id)]
+        return bool(st) and all(s.kind == "stmt" and isinstance(s.ast, ast.Assign) and _is_collection(f, s.ast.value) for s in st)
+    return False
 
 
 def _true_branch_raises(f, t):
